@@ -149,6 +149,30 @@ fn vx_pass_at(s: &mut Vec<Box<dyn Lift>>, i: usize) -> (r: &mut Box<dyn Lift>)
     ensures *r == old(s)[i as int], final(s)@ == old(s)@.update(i as int, *final(r)),
 { unimplemented!() }
 
+
+// A-STD / A-CALLEE (R-CALL stand-ins of `add`): `Any::type_id` tells pass types apart — `id_of` is the TypeId of a pass
+// kind, different kinds have different ids (`kind_of_id` is its inverse); `ids` = the ids of the list's elements in
+// order (iter().map(type_id).collect()); `Vec::contains`; `Box::new` + the unsizing coercion keeps the pass's kind.
+pub uninterp spec fn id_of(k: PassKind) -> TypeId;
+pub uninterp spec fn kind_of_id(t: TypeId) -> PassKind;
+pub open spec fn has_kind(ps: Seq<Box<dyn Lift>>, k: PassKind) -> bool { exists|i: int| 0 <= i < ps.len() && (#[trigger] ps[i]).kind() == k }
+#[verifier::external_body]
+fn vx_ids(s: &Vec<Box<dyn Lift>>) -> (r: Vec<TypeId>)
+    ensures r.len() == s.len(), forall|i: int| 0 <= i < s.len() ==> #[trigger] r[i] == id_of(s[i].kind()),
+{ unimplemented!() }
+#[verifier::external_body]
+fn vx_type_id<P: Lift>(p: &P) -> (r: TypeId)
+    ensures r == id_of(p.kind()), forall|k: PassKind| kind_of_id(#[trigger] id_of(k)) == k,
+{ unimplemented!() }
+#[verifier::external_body]
+fn vx_contains(v: &Vec<TypeId>, t: &TypeId) -> (r: bool)
+    ensures r <==> exists|i: int| 0 <= i < v.len() && #[trigger] v[i] == *t,
+{ unimplemented!() }
+#[verifier::external_body]
+fn vx_box<P: Lift + 'static>(p: P) -> (r: Box<dyn Lift>)
+    ensures r.kind() == p.kind(),
+{ unimplemented!() }
+
 // A-CALLEE: the constructors of the six passes whose types are not in this unit: `X::new()` is `Box::new(Self)`
 // (hash table construction for StorageSlotHashes), coerced to `Box<dyn Lift>` by the `vec!` of `default`; here the
 // coercion is part of the stand-in and the result is tagged with the type it was made from.
@@ -263,6 +287,35 @@ passes
         ensures r.list() == passes@,                                                              //@ob C17.lift_passes.new.the_list_as_given
 //@end
 
+//@extract file=src/tc/lift/mod.rs path="impl LiftingPasses|fn add" props=C05,C01
+//@rw R-CALL
+//@old
+self.passes.iter().map(|p| p.as_ref().type_id()).collect()
+//@new
+vx_ids(&self.passes)
+//@rw R-CALL
+//@old
+pass.type_id()
+//@new
+vx_type_id(&pass)
+//@rw R-CALL
+//@old
+ids.contains(&pass_id)
+//@new
+vx_contains(&ids, &pass_id)
+//@rw R-CALL
+//@old
+Box::new(pass)
+//@new
+vx_box(pass)
+//@spec
+        ensures
+            has_kind(old(self).list(), pass.kind()) ==> final(self).list() == old(self).list(),  //@ob C05.lift_passes.add.no_op_when_a_pass_of_that_kind_is_present
+            !has_kind(old(self).list(), pass.kind()) ==> final(self).list().len() == old(self).list().len() + 1
+                && final(self).list().last().kind() == pass.kind()
+                && final(self).list().drop_last() == old(self).list(),                            //@ob C05.lift_passes.add.otherwise_appended_at_the_end_existing_passes_unchanged
+//@end
+
 //@extract file=src/tc/lift/mod.rs path="impl LiftingPasses|fn run" props=C17,C05,C01
 //@ret r
 //@rw R-SIG
@@ -274,7 +327,7 @@ vx_value: RuntimeBoxedVal,
 //@old
 for pass in &mut self.passes {
 //@new
-let mut value = vx_value; let mut vx_i: usize = 0;
+let mut vx_i: usize = 0;
         while vx_i < self.passes.len() { let pass = vx_pass_at(&mut self.passes, vx_i); vx_i += 1;
 //@spec
         ensures
@@ -288,6 +341,7 @@ let mut value = vx_value; let mut vx_i: usize = 0;
             kinds(final(self).list()) == kinds(old(self).list()),                                 //@ob C05.lift_passes.run.pass_list_keeps_its_order C12.lift_passes.run.pass_list_keeps_its_order
 //@proof entry
         let ghost v0 = vx_value;
+        let mut value = vx_value;   // R-SIG, second half: the body's `value` (see above)
 //@loop 1 kind=while
             invariant
                 v0 == vx_value,
